@@ -8,6 +8,7 @@ package aggh
 import (
 	"fmt"
 	"net"
+	"sync"
 	"time"
 
 	"github.com/vmware/go-ipfix/pkg/entities"
@@ -109,16 +110,24 @@ var CorrelateFields = []string{"sourcePodName", "sourcePodNamespace", "sourceNod
 	"destinationNodeName", "destinationClusterIPv4", "destinationClusterIPv6", "destinationServicePort",
 	"ingressNetworkPolicyRuleAction", "egressNetworkPolicyRuleAction", "ingressNetworkPolicyRulePriority"}
 
-var ieCache = map[string]*entities.InfoElement{}
+var (
+	ieMu    sync.RWMutex
+	ieCache = map[string]*entities.InfoElement{}
+)
 
-// IE finds an element by name in the IANA, reverse and Antrea registries.
+// IE finds an element by name in the IANA, reverse and Antrea registries (safe for concurrent use).
 func IE(name string) *entities.InfoElement {
-	if ie, ok := ieCache[name]; ok {
+	ieMu.RLock()
+	ie, ok := ieCache[name]
+	ieMu.RUnlock()
+	if ok {
 		return ie
 	}
 	for _, ent := range []uint32{registry.IANAEnterpriseID, registry.IANAReversedEnterpriseID, registry.AntreaEnterpriseID} {
 		if ie, err := registry.GetInfoElement(name, ent); err == nil {
+			ieMu.Lock()
 			ieCache[name] = ie
+			ieMu.Unlock()
 			return ie
 		}
 	}
